@@ -213,5 +213,9 @@ Lemma std_request_name_fields_valid name flags m : std_request_name name flags =
 Proof.
   intros H. destruct (std_request_name_spec name flags) as [P O]. destruct (KnownClass_D24 [name]) eqn:E.
   - rewrite (P eq_refl) in H. discriminate.
-  - destruct (O eq_refl) as (m' & Hm & (Hn & Hr & _ & Hs) & _). rewrite H in Hm. injection Hm as <-. split; [split|]; assumption.
+  - destruct (O eq_refl) as (m' & Hm & (Hn & Hr & _ & Hs) & _). rewrite H in Hm. injection Hm as <-.
+    split; [split; [exact Hn|split; [exact Hs|]]|exact Hr].
+    (* nothing request_name pushes carries a descriptor *)
+    unfold std_request_name in H. rewrite push_string in H. destruct (has_nul name); [discriminate|]. cbn [bind] in H. rewrite push_u32 in H.
+    injection H as <-. cbn. intros C. now elim C.
 Qed.
